@@ -10,7 +10,7 @@ pub struct C08P;
 pub static C08: C08P = C08P;
 
 /// Subject kinds: how the receiver whose rows are iterated is obtained.
-pub const KINDS: [&str; 12] = ["O", "V1", "V3", "M1", "M2", "N", "D", "DL", "DV", "DN", "VC", "VI"];
+pub const KINDS: [&str; 16] = ["O", "V1", "V3", "M1", "M2", "N", "D", "DL", "DV", "DN", "VC", "VI", "MV", "VV", "VF", "MF"];
 
 /// (parent cols, parent rows, abs start of the receiver) for a receiver of size (c, r).
 pub fn layout(kind: &str, c: usize, r: usize) -> (usize, usize, (usize, usize)) {
@@ -33,7 +33,9 @@ pub fn layout(kind: &str, c: usize, r: usize) -> (usize, usize, (usize, usize)) 
         "M1" => (c + 1, r.max(1), (0, 0)),
         "M2" => (c + 2, r + 2, (1, 1)),
         // nested: outer window (1,0)-(c+2, r+1) of a (c+3) x (r+1) parent, inner (1,1)-(1+c,1+r)
-        "N" => (c + 3, r + 1, (2, 1)),
+        "N" | "MV" | "VV" => (c + 3, r + 1, (2, 1)),
+        // full-width band of rows of a narrow outer window: outer (1,0)-(1+c, r+2) of a (c+2) x (r+2) parent, inner (0,1)-(c,1+r)
+        "VF" | "MF" => (c + 2, r + 2, (1, 1)),
         _ => panic!("bad kind"),
     }
 }
@@ -132,6 +134,41 @@ macro_rules! with_subject {
                 let $xm = &mut v__;
                 $rw
             }
+            // a read-only view of a mutable window / of a read-only window (same geometry as N)
+            ("MV", _) => {
+                let o__ = $root.view_mut((1, 0), (c__ + 2, r__ + 1));
+                let v__ = o__.view((1, 1), (1 + c__, 1 + r__));
+                let $x = &v__;
+                $ro
+            }
+            ("VV", _) => {
+                let o__ = $root.view((1, 0), (c__ + 2, r__ + 1));
+                let v__ = o__.view((1, 1), (1 + c__, 1 + r__));
+                let $x = &v__;
+                $ro
+            }
+            // a child spanning ALL columns of a parent window that is narrower than the array
+            ("VF", _) => {
+                let o__ = $root.view((1, 0), (1 + c__, r__ + 2));
+                let (s2__, e2__) = if c__ == 0 || r__ == 0 { ((0, 0), (0, 0)) } else { ((0, 1), (c__, 1 + r__)) };
+                let v__ = o__.view(s2__, e2__);
+                let $x = &v__;
+                $ro
+            }
+            ("MF", false) => {
+                let mut o__ = $root.view_mut((1, 0), (1 + c__, r__ + 2));
+                let (s2__, e2__) = if c__ == 0 || r__ == 0 { ((0, 0), (0, 0)) } else { ((0, 1), (c__, 1 + r__)) };
+                let v__ = o__.view_mut(s2__, e2__);
+                let $x = &v__;
+                $ro
+            }
+            ("MF", true) => {
+                let mut o__ = $root.view_mut((1, 0), (1 + c__, r__ + 2));
+                let (s2__, e2__) = if c__ == 0 || r__ == 0 { ((0, 0), (0, 0)) } else { ((0, 1), (c__, 1 + r__)) };
+                let mut v__ = o__.view_mut(s2__, e2__);
+                let $xm = &mut v__;
+                $rw
+            }
             ("N", false) => {
                 let mut o__ = $root.view_mut((1, 0), (c__ + 2, r__ + 1));
                 let v__ = o__.view_mut((1, 1), (1 + c__, 1 + r__));
@@ -150,7 +187,7 @@ macro_rules! with_subject {
 }
 
 pub fn has_mut(kind: &str) -> bool {
-    !(kind.starts_with('V') || kind == "DV")
+    !(kind.starts_with('V') || kind == "DV" || kind == "MV")
 }
 
 pub fn new_root(pc: usize, pr: usize) -> TooDee<u32> {
